@@ -6,39 +6,67 @@
 (* described state was held (PathSetSharedState::sync for fetch_start,         *)
 (* fetch_done, exit_notify, worker_exit, caller_check; the map guard for       *)
 (* map_insert, map_load, map_remove).  Steps of the I-spec that are lock-free  *)
-(* in the code (peek/contains/active loads, the fetcher's return, a removal    *)
-(* that finds nothing, deferred reclamation, the instant at which a dropped    *)
-(* clone or an aborted future disappears) have no event of their own: they are *)
-(* HIDDEN steps that TLC places between the recorded ones.  The trace is       *)
-(* accepted iff some placement explains every line; then Accepted is violated  *)
-(* (that is the success signal).  The P-invariants are checked on every state  *)
-(* of the explanation.                                                         *)
+(* in the code have no event of their own; their instant is only known to lie  *)
+(* between two events of the same task:                                        *)
+(*   - the caller's lock-free reads (Start = peek_with/try_active_path,         *)
+(*     Contains, ActiveLoad, Final): performed EAGERLY together with the        *)
+(*     preceding event of that caller and RE-EVALUATED (ReRead) whenever the    *)
+(*     outcome would be different later in the window -- this explores every    *)
+(*     instant of the window without keeping a "not yet read" copy of the state *)
+(*   - FetchReturn (the fetcher's answer is published between the harness's     *)
+(*     fetch_ret stamp and fetch_done), a removal that finds nothing (between   *)
+(*     exiting and exit_notify), the final active_path.store(None) (between     *)
+(*     exit_notify and worker_exit), the release of the director's clone        *)
+(*     (between drop_begin and drop), the drop of an aborted future: HIDDEN     *)
+(*     steps placed by TLC                                                      *)
+(*   - deferred reclamation inside scc (Reclaim) is folded into the exiting     *)
+(*     event of the orphaned worker                                             *)
+(*   - a finished API caller releases its clone at some instant before its      *)
+(*     caller_done stamp (LINGER = TRUE, hidden HRelease)                       *)
+(* The trace is accepted iff some placement explains every line (POSTCONDITION  *)
+(* TraceAccepted).  The P-invariants are checked on every state of every        *)
+(* candidate explanation.                                                       *)
 (*                                                                             *)
-(*   {"ev":"meta",...}                               first line                *)
-(*   {"ev":"reset","nw":n,"callers":{name:{kind,k}}} fresh manager             *)
+(*   {"ev":"meta","nw":N,"callers":{name:{kind,k}}}  first line                *)
+(*   {"ev":"reset",...}                              fresh manager             *)
 (*   {"ev":E,"seq","w","c","k","by","note","snap","init","ongoing","err","active"} *)
 EXTENDS PathSync, Json, IOUtils
 
 Rec == ndJsonDeserialize(IOEnv.TRACE)
-ResetLines == {i \in 1..Len(Rec) : Rec[i].ev = "reset"}
-TraceCallers == UNION {DOMAIN Rec[i].callers : i \in ResetLines}
-MetaOf(c) == LET i == CHOOSE i \in ResetLines : c \in DOMAIN Rec[i].callers IN Rec[i].callers[c]
-TraceKind == [c \in TraceCallers |-> MetaOf(c).kind]
-TraceKeyOf == [c \in TraceCallers |-> MetaOf(c).k]
-MaxOf(S) == IF S = {} THEN 1 ELSE CHOOSE x \in S : \A y \in S : y <= x
-TraceNW == MaxOf({Rec[i].nw : i \in ResetLines})
+\* the meta line (written by the check driver) lists every caller name of the file with its
+\* kind and pair, and the largest number of workers of a run
+Meta == Rec[1]
+TraceCallers == DOMAIN Meta.callers
+TraceKind == [c \in TraceCallers |-> Meta.callers[c].kind]
+TraceKeyOf == [c \in TraceCallers |-> Meta.callers[c].k]
+TraceNW == Meta.nw
 
-VARIABLES l,          \* next line of the trace
-          dropArmed,  \* the director started to drop its clone
-          cancelArmed \* callers whose task was aborted (future dropped at an unknown instant)
+VARIABLES l,           \* next line of the trace
+          fresh,       \* per caller: which lock-free read produced its current pc since its last event
+          pend,        \* per worker: outcome announced by fetch_ret, not yet published ("" = none)
+          dropArmed,   \* the director started to drop its clone
+          cancelArmed  \* callers whose task was aborted (future dropped at an unknown instant)
 
-tvars == <<vars, l, dropArmed, cancelArmed>>
-aux == <<dropArmed, cancelArmed>>
+aux == <<fresh, pend, dropArmed, cancelArmed>>
+tvars == <<vars, l, aux>>
 
-TInit == Init /\ l = 2 /\ dropArmed = FALSE /\ cancelArmed = {}
+TInit == /\ Init /\ l = 2
+         /\ fresh = [c \in Callers |-> ""] /\ pend = [w \in Workers |-> ""]
+         /\ dropArmed = FALSE /\ cancelArmed = {}
 
 E == Rec[l]
 IsCaller(c) == c \in Callers
+
+\* caller c moves to <<pc, result>>
+SetC(c, o) ==
+  /\ cpc' = [cpc EXCEPT ![c] = o[1]]
+  /\ res' = [res EXCEPT ![c] = o[2]]
+  /\ linger' = IF o[1] = "done" /\ Api(c) THEN linger \cup {c} ELSE linger \ {c}
+Now(c) == <<cpc[c], res[c]>>
+Fresh(c, f) == fresh' = [fresh EXCEPT ![c] = f]
+
+\* peek and (cached_path only) contains, both evaluated now
+StartAll(c) == IF StartOutcome(c)[1] = "contains" THEN ContainsOutcome(c) ELSE StartOutcome(c)
 
 -----------------------------------------------------------------------------
 (* recorded events *)
@@ -57,28 +85,48 @@ TReset ==
   /\ h' = [c \in Callers |-> None]
   /\ notified' = [c \in Callers |-> FALSE]
   /\ res' = [c \in Callers |-> ""]
+  /\ linger' = {}
   /\ runC' = "none" /\ runW' = None
+  /\ fresh' = [c \in Callers |-> ""] /\ pend' = [w \in Workers |-> ""]
   /\ dropArmed' = FALSE /\ cancelArmed' = {}
 
+\* the task of an API caller was spawned with its own clone: Start (+ Contains) evaluated now
 TCallerStart ==
-  /\ E.ev = "caller_start" /\ IsCaller(E.c)
+  /\ E.ev = "caller_start" /\ IsCaller(E.c) /\ Api(E.c)
   /\ cpc[E.c] = "idle" /\ userHeld
-  /\ cpc' = [cpc EXCEPT ![E.c] = "armed"]
-  /\ UNCHANGED <<mvars, wvars, h, notified, res, running, aux>>
+  /\ SetC(E.c, StartAll(E.c)) /\ Fresh(E.c, "start")
+  /\ UNCHANGED <<mvars, wvars, h, notified, running, pend, dropArmed, cancelArmed>>
 
-THandleGet == E.ev = "handle_get" /\ IsCaller(E.c) /\ E.w \in Workers /\ GetHandle(E.c, E.w) /\ UNCHANGED aux
+\* a task awaiting PathSetHandle::active_path of worker w was spawned: ActiveLoad evaluated now
+THandleGet ==
+  /\ E.ev = "handle_get" /\ IsCaller(E.c) /\ E.w \in Workers
+  /\ cpc[E.c] = "idle" /\ Kind[E.c] = "handle" /\ wpc[E.w] # "unborn"
+  /\ h' = [h EXCEPT ![E.c] = E.w]
+  /\ SetC(E.c, LoadOutcome(E.w)) /\ Fresh(E.c, "load")
+  /\ UNCHANGED <<mvars, wvars, notified, running, pend, dropArmed, cancelArmed>>
+
+\* after Ensure: cached_path returns None; path() goes on to handle.active_path()
+AfterEnsureT(c, w, act) ==
+  IF Kind[c] = "cached" THEN SetC(c, <<"done", "none">>) /\ Fresh(c, "")
+  ELSE SetC(c, IF act THEN <<"done", "path">> ELSE <<"check", "">>) /\ Fresh(c, "load")
 
 TMapInsert ==
   /\ E.ev = "map_insert" /\ IsCaller(E.c) /\ E.w \in Workers
-  /\ managed[KeyOf[E.c]] = None /\ KeyOf[E.c] = E.k
-  /\ Ensure(E.c) /\ h'[E.c] = E.w
-  /\ UNCHANGED aux
+  /\ cpc[E.c] = "ensure" /\ KeyOf[E.c] = E.k /\ managed[E.k] = None
+  /\ Unborn # {} /\ NextWorker = E.w
+  /\ Spawn(E.w, E.k)
+  /\ managed' = [managed EXCEPT ![E.k] = E.w]
+  /\ h' = [h EXCEPT ![E.c] = E.w]
+  /\ AfterEnsureT(E.c, E.w, FALSE)
+  /\ UNCHANGED <<limbo, removed, cancelled, userHeld, init, ongoing, err, active, used, fetches, notified, running,
+                 pend, dropArmed, cancelArmed>>
 
 TMapLoad ==
-  /\ E.ev = "map_load" /\ IsCaller(E.c)
-  /\ managed[KeyOf[E.c]] = E.w /\ E.w # None /\ KeyOf[E.c] = E.k
-  /\ Ensure(E.c)
-  /\ UNCHANGED aux
+  /\ E.ev = "map_load" /\ IsCaller(E.c) /\ E.w \in Workers
+  /\ cpc[E.c] = "ensure" /\ KeyOf[E.c] = E.k /\ managed[E.k] = E.w
+  /\ h' = [h EXCEPT ![E.c] = E.w]
+  /\ AfterEnsureT(E.c, E.w, active[E.w])
+  /\ UNCHANGED <<mvars, wvars, notified, running, pend, dropArmed, cancelArmed>>
 
 TMapRemove ==
   /\ E.ev = "map_remove"
@@ -94,87 +142,147 @@ TFetchStart ==
   /\ wpc'[E.w] = "fetching"
   /\ UNCHANGED aux
 
+\* harness stamp: the fetcher is about to return outcome `note`
+TFetchRet ==
+  /\ E.ev = "fetch_ret" /\ E.w \in Workers
+  /\ wpc[E.w] = "fetching" /\ pend[E.w] = ""
+  /\ pend' = [pend EXCEPT ![E.w] = E.note]
+  /\ UNCHANGED <<vars, fresh, dropArmed, cancelArmed>>
+
 TFetchDone ==
   /\ E.ev = "fetch_done" /\ E.w \in Workers
   /\ Finish(E.w)
   /\ err[E.w] = E.err /\ active[E.w] = E.active
   /\ UNCHANGED aux
 
+\* deferred reclamation of the removed map entry (cancel) folded into the orphan's exit
+ReclaimThenStop(w) ==
+  /\ w \in limbo /\ Alive /\ wpc[w] = "sleeping"
+  /\ limbo' = limbo \ {w}
+  /\ cancelled' = cancelled \cup {w}
+  /\ wpc' = [wpc EXCEPT ![w] = "exiting"]
+  /\ UNCHANGED <<managed, removed, userHeld, wkey, init, ongoing, err, active, used, fetches, cvars, running>>
+
 TExiting ==
   /\ E.ev = "exiting" /\ E.w \in Workers
-  /\ IF E.note = "idle" THEN IdleCheck(E.w) ELSE (StopExit(E.w) \/ FirstPoll(E.w))
+  /\ IF E.note = "idle" THEN IdleCheck(E.w)
+     ELSE (StopExit(E.w) \/ FirstPoll(E.w) \/ ReclaimThenStop(E.w))
   /\ wpc'[E.w] = "exiting"
   /\ UNCHANGED aux
 
 TExitNotify == E.ev = "exit_notify" /\ E.w \in Workers /\ ExitNotify(E.w) /\ UNCHANGED aux
 TWorkerExit == E.ev = "worker_exit" /\ E.w \in Workers /\ ExitClear(E.w) /\ UNCHANGED aux
 
+\* await_ongoing_update under the sync lock; when nothing is pending the caller goes on to its
+\* final lock-free load (evaluated now, re-evaluated by ReRead)
 TCallerCheck ==
-  /\ E.ev = "caller_check" /\ IsCaller(E.c)
-  /\ h[E.c] = E.w
+  /\ E.ev = "caller_check" /\ IsCaller(E.c) /\ E.w \in Workers
+  /\ cpc[E.c] = "check" /\ h[E.c] = E.w
   /\ ongoing[E.w] = E.ongoing /\ init[E.w] = E.init
-  /\ CheckReg(E.c)
-  /\ UNCHANGED aux
+  /\ IF ~ongoing[E.w] /\ init[E.w]
+     THEN SetC(E.c, FinalOutcome(E.w)) /\ Fresh(E.c, "final") /\ UNCHANGED notified
+     ELSE /\ SetC(E.c, <<"waiting", "">>) /\ Fresh(E.c, "")
+          /\ notified' = [notified EXCEPT ![E.c] = FALSE]
+  /\ UNCHANGED <<mvars, wvars, h, running, pend, dropArmed, cancelArmed>>
 
-TCallerWoken == E.ev = "caller_woken" /\ IsCaller(E.c) /\ Wake(E.c) /\ UNCHANGED aux
+TCallerWoken ==
+  /\ E.ev = "caller_woken" /\ IsCaller(E.c)
+  /\ cpc[E.c] = "waiting" /\ notified[E.c]
+  /\ SetC(E.c, FinalOutcome(h[E.c])) /\ Fresh(E.c, "final")
+  /\ UNCHANGED <<mvars, wvars, h, notified, running, pend, dropArmed, cancelArmed>>
 
+\* the call returned (stamped after the caller's clone was released)
 TCallerDone ==
   /\ E.ev = "caller_done" /\ IsCaller(E.c)
   /\ cpc[E.c] = "done" /\ res[E.c] = E.note
-  /\ UNCHANGED <<vars, aux>>
+  /\ linger' = linger \ {E.c} /\ Fresh(E.c, "")
+  /\ UNCHANGED <<mvars, wvars, cpc, h, notified, res, running, pend, dropArmed, cancelArmed>>
 
-TDropBegin == E.ev = "drop_begin" /\ userHeld /\ dropArmed' = TRUE /\ UNCHANGED <<vars, cancelArmed>>
+TDropBegin == E.ev = "drop_begin" /\ userHeld /\ dropArmed' = TRUE /\ UNCHANGED <<vars, fresh, pend, cancelArmed>>
 TDropEnd == E.ev = "drop" /\ ~userHeld /\ UNCHANGED <<vars, aux>>
 
 TCancelBegin ==
   /\ E.ev = "caller_cancel" /\ IsCaller(E.c)
   /\ cancelArmed' = cancelArmed \cup {E.c}
-  /\ UNCHANGED <<vars, dropArmed>>
+  /\ UNCHANGED <<vars, fresh, pend, dropArmed>>
 
 \* harness-side bookkeeping events without a counterpart in the spec
-TSkip == E.ev \in {"fetch_call", "fetch_ret", "stop_call", "note"} /\ UNCHANGED <<vars, aux>>
+TSkip == E.ev \in {"fetch_call", "stop_call", "note"} /\ UNCHANGED <<vars, aux>>
 
 TEvent ==
   /\ l <= Len(Rec)
   /\ l' = l + 1
   /\ \/ TReset \/ TCallerStart \/ THandleGet \/ TMapInsert \/ TMapLoad \/ TMapRemove
-     \/ TFetchStart \/ TFetchDone \/ TExiting \/ TExitNotify \/ TWorkerExit
+     \/ TFetchStart \/ TFetchRet \/ TFetchDone \/ TExiting \/ TExitNotify \/ TWorkerExit
      \/ TCallerCheck \/ TCallerWoken \/ TCallerDone \/ TDropBegin \/ TDropEnd
      \/ TCancelBegin \/ TSkip
 
 -----------------------------------------------------------------------------
 (* hidden steps *)
+
+\* the lock-free read that produced the caller's pc may as well have happened now
+Targets(c) ==
+  CASE fresh[c] = "start" ->
+         {StartAll(c)} \cup (IF Kind[c] = "cached" /\ Now(c) \in {<<"ensure", "">>, <<"done", "none">>}
+                             THEN {ContainsOutcome(c)} ELSE {})
+    [] fresh[c] = "load" -> {LoadOutcome(h[c])}
+    [] fresh[c] = "final" -> {FinalOutcome(h[c])}
+    [] OTHER -> {}
+ReRead(c) ==
+  /\ fresh[c] # ""
+  /\ \E o \in Targets(c) \ {Now(c)} : SetC(c, o)
+  /\ UNCHANGED <<mvars, wvars, h, notified, running, aux>>
+
+\* an aborted task: its future is dropped at its await point, or before it ever ran
 HCancel(c) ==
-  /\ c \in cancelArmed /\ cpc[c] \in {"armed", "waiting"}
-  /\ Done(c, "cancelled")
-  /\ UNCHANGED <<mvars, wvars, h, notified, running>>
+  /\ c \in cancelArmed /\ (cpc[c] = "waiting" \/ (fresh[c] = "start" /\ cpc[c] # "done"))
+  /\ SetC(c, <<"done", "cancelled">>)
+  /\ UNCHANGED <<mvars, wvars, h, notified, running, aux>>
+
+\* the call returned and its clone of the manager is gone (before the caller_done stamp)
+HRelease(c) ==
+  /\ c \in linger /\ cpc[c] = "done"
+  /\ linger' = linger \ {c} /\ Fresh(c, "")
+  /\ UNCHANGED <<mvars, wvars, cpc, h, notified, res, running, pend, dropArmed, cancelArmed>>
+
+HFetchReturn(w) ==
+  /\ pend[w] # ""
+  /\ FetchReturn(w, pend[w])
+  /\ pend' = [pend EXCEPT ![w] = ""]
+  /\ UNCHANGED <<fresh, dropArmed, cancelArmed>>
 
 HExitRemoveNoop(w) ==
   /\ wpc[w] = "exiting" /\ (~Alive \/ managed[wkey[w]] = None)
   /\ ExitRemove(w)
+  /\ UNCHANGED aux
+
+\* active_path.store(None) precedes the worker_exit stamp
+HClear(w) ==
+  /\ wpc[w] = "clearing" /\ active[w]
+  /\ active' = [active EXCEPT ![w] = FALSE]
+  /\ UNCHANGED <<mvars, wpc, wkey, init, ongoing, err, used, fetches, cvars, running, aux>>
+
+HDrop == dropArmed /\ Drop /\ UNCHANGED aux
 
 THidden ==
   /\ l <= Len(Rec) /\ Rec[l].ev # "reset"
   /\ UNCHANGED l
-  /\ \/ /\ UNCHANGED aux
-        /\ \/ \E c \in Callers : \/ cpc[c] = "armed" /\ Start(c)
-                                 \/ Contains(c) \/ ActiveLoad(c) \/ Final(c)
-           \/ \E w \in Workers : \/ \E o \in {"ok", "err"} : FetchReturn(w, o)
-                                 \/ HExitRemoveNoop(w)
-                                 \/ Reclaim(w)
-           \/ dropArmed /\ Drop
-     \/ \E c \in Callers : HCancel(c) /\ UNCHANGED aux
+  /\ \/ \E c \in Callers : ReRead(c) \/ HCancel(c) \/ HRelease(c)
+     \/ \E w \in Workers : HFetchReturn(w) \/ HExitRemoveNoop(w) \/ HClear(w)
+     \/ HDrop
 
 TNext == TEvent \/ THidden
 TSpec == TInit /\ [][TNext]_tvars
 
-\* success signal: the whole file was explained
+\* (debugging aid: adding Accepted to INVARIANTS makes TLC print the explanation it found)
 Accepted == l <= Len(Rec)
 \* diagnostics when rejected: furthest line reached (registers are per worker: run with 1 worker)
 ASSUME TLCSet(7, 0)
 Furthest == TLCSet(7, IF l > TLCGet(7) THEN l ELSE TLCGet(7))
-Report ==
+\* POSTCONDITION: the trace is accepted iff some explanation consumed every line
+TraceAccepted ==
   LET f == TLCGet(7) IN
   /\ PrintT(<<"FURTHEST", f, "of", Len(Rec)>>)
   /\ (f <= Len(Rec) => PrintT(<<"UNMATCHED", ToJson(Rec[f])>>))
+  /\ f = Len(Rec) + 1
 =============================================================================
